@@ -557,3 +557,14 @@ Proof.
   - destruct x; try discriminate. destruct (exprs_of es) as [t|] eqn:E; [|discriminate]. inversion H; subst.
     cbn in W. destruct W as [W1 W2]. constructor; [exact W1|]. apply IH; [exact W2|reflexivity].
 Qed.
+Lemma inclb_app_comm s a b : inclb s (a ++ b) = inclb s (b ++ a).
+Proof.
+  destruct (inclb s (a ++ b)) eqn:E1; destruct (inclb s (b ++ a)) eqn:E2; try reflexivity; exfalso.
+  - rewrite inclb_spec in E1. assert (inclb s (b ++ a) = true); [|congruence].
+    apply inclb_spec. intros c Hc. specialize (E1 c Hc). rewrite in_app_iff in *. tauto.
+  - rewrite inclb_spec in E2. assert (inclb s (a ++ b) = true); [|congruence].
+    apply inclb_spec. intros c Hc. specialize (E2 c Hc). rewrite in_app_iff in *. tauto.
+Qed.
+Lemma forallb_inclb_app_comm {E} (g : E -> list nat) fs a b :
+  forallb (fun e => inclb (g e) (a ++ b)) fs = forallb (fun e => inclb (g e) (b ++ a)) fs.
+Proof. induction fs as [|e fs IH]; [reflexivity|]. cbn [forallb]. rewrite IH, inclb_app_comm. reflexivity. Qed.
